@@ -11,7 +11,7 @@
 From Coq Require Import List ZArith NArith Bool.
 From BBS Require Import Common.Sx Buffer.Source Buffer.Validate Buffer.Convert Buffer.ErrHandler
   Buffer.StreamProofs Buffer.ValidateProofs Buffer.ErrHandlerProofs Buffer.ClosedOnceProofs
-  Buffer.ErrHandlerStackProofs Run.R09 Run.R16.
+  Buffer.ErrHandlerStackProofs Buffer.StackRuleProofs Run.R09 Run.R16.
 Import ListNotations.
 Open Scope N_scope.
 
@@ -119,35 +119,56 @@ Theorem plain_buffer_closes_source_once : forall H cfg fuel b m,
 Proof. exact plain_closed_once. Qed.
 Print Assumptions plain_buffer_closes_source_once.
 
-(** The offering rule for stacks.  Full statement: in [run_stack], for every
-    pair of neighbouring levels, the error returned by the inner handler is the
-    first error the outer handler is offered, nothing reaches the outer handler
-    before that, and no handler is asked again after it has answered with an
-    error (monitor clause 10 of Run/R16.v, evaluated on every implementation
-    observation and on the model by the correspondence check):
+(** The offering rule for stacks, over a whole run.  [ruled anss logs]
+    (Buffer/StackRuleProofs.v): every level l has a trace [g_tr] of (error
+    offered, answer given) pairs such that
+    - [hrun]: the handler state whose log is [logs_l] is what the scripted
+      handler with script [anss_l] becomes by being offered exactly the errors
+      of the trace, one OnError call each, giving the answers of the trace (so
+      the trace's errors are the OnError calls of the log, [trace_is_log]);
+    - [gvalid]: all its answers are replacements, or the LAST one is an error
+      and all earlier ones replacements: a handler that has answered with an
+      error is not asked again ([not_asked_again_after_error]);
+    - [chain]: for neighbouring levels ([adj inner outer]) either the inner
+      handler has not answered with an error and the outer handler has not been
+      asked at all, or the inner handler's last answer is the error c and the
+      FIRST error the outer handler was offered is c.  An I/O error of an
+      underlying buffer therefore reaches the innermost active handler first,
+      and an outer handler only ever sees what the handler below it returned
+      (then, after it has supplied a replacement, that replacement's errors).
+    For all buffers, all handler scripts at every level, all methods, offsets,
+    chunk sizes, digests, any fuel, any depth. *)
+Theorem stack_offering_rule : forall H cfg fuel b0 anss m,
+  ruled anss (y_logs (run_stack H cfg fuel b0 anss m)).
+Proof. exact run_stack_ruled. Qed.
+Print Assumptions stack_offering_rule.
 
-      forall H cfg fuel b0 anss m, let o := run_stack H cfg fuel b0 anss m in
-        stack_rule anss (map offered_codes (y_logs o)) = true /\
-        Forall2 (fun ans log => asked_after_error ans (length (offered_codes log)) = false) anss (y_logs o)
+Theorem trace_is_log : forall ans h tr, hrun ans h tr -> onerrors (h_log h) = map fst tr.
+Proof. exact hrun_log. Qed.
+Print Assumptions trace_is_log.
 
-    Proved: the rule for every single offering ([escalate], the one place where
-    the nested readers, nested tryRepeatedly calls pass an error upwards): [e]
-    is offered to the innermost active handler first; the error answer of a
+Theorem not_asked_again_after_error : forall g, gvalid g -> Forall isrep (removelast (g_tr g)).
+Proof. exact gvalid_not_asked_again. Qed.
+Print Assumptions not_asked_again_after_error.
+
+(** The rule for one offering ([escalate], the one place where the nested
+    readers and the nested tryRepeatedly calls pass an error upwards): [e] is
+    offered to the innermost active handler first; the error answer of a
     handler is exactly what the next outer handler is offered; handlers above a
-    replacing handler are not asked; the error answer of the outermost handler is
-    the result; and each handler asked receives exactly ONE further OnError call,
-    with the error of the chain (all other logs unchanged). *)
-Theorem offering_rule_partial : forall act e,
+    replacing handler are not asked; the error answer of the outermost handler
+    is the result; and each handler asked receives exactly ONE further OnError
+    call, with the error of the chain (all other logs unchanged). *)
+Theorem offering_rule_single_offering : forall act e,
   let '(r, passed, act') := escalate e act in offering e act r passed act'.
 Proof. exact escalate_offering. Qed.
-Print Assumptions offering_rule_partial.
+Print Assumptions offering_rule_single_offering.
 
-Theorem each_error_offered_once_per_level_partial : forall act e r passed act',
+Theorem each_error_offered_once_per_level : forall act e r passed act',
   escalate e act = (r, passed, act') ->
-  map h_log (passed ++ act') = grow act (chain e act) \/
-  (fst r = None /\ act' = [] /\ map h_log passed = grow act (chain e act)).
+  map h_log (passed ++ act') = grow act (offer_chain e act) \/
+  (fst r = None /\ act' = [] /\ map h_log passed = grow act (offer_chain e act)).
 Proof. exact escalate_logs. Qed.
-Print Assumptions each_error_offered_once_per_level_partial.
+Print Assumptions each_error_offered_once_per_level.
 
 (** Non-vacuity: the original fails after one byte, the replacement is opened
     at offset 1; the consumer gets 1,2,3 once each, validation succeeds, the
